@@ -1,7 +1,7 @@
 (** Proofs about the entry of a writer that still holds a temp file (model: SM/AtomicAbandon.v). *)
 From Coq Require Import List Bool Arith PeanoNat Lia.
 From SV Require Import SM.AtomicWriter SM.AtomicWriterProofs SM.AtomicWriterThms SM.AtomicExit SM.AtomicReuse SM.AtomicRetry
-  SM.AtomicRetryProofs SM.AtomicAbandon.
+  SM.AtomicRetryProofs SM.AtomicReuseProofs SM.AtomicAbandon.
 Import ListNotations.
 
 Lemma is_leaf_inv t : is_leaf t = true -> exists b, t = XDone b.
@@ -98,3 +98,59 @@ Lemma reentry_run_example :
   snd (pro_run t 1 [true] d) = Some true /\ fst (pro_run t 1 [true] d) (Tmp 1) = None /\
   fst (pro_run t 1 [] d) (File 0) = d_old (File 0).
 Proof. vm_compute. auto 10. Qed.
+
+(** ** The property for a generated object: every hypothesis is a boolean on generated objects
+    ([o]: the writer class as read from the source — __exit__ program, attribute facts, open modes; [p]: the entry
+    prologue of make_tempfile; [n]: the number of named OSError subclasses of the translator's table), except
+    [dest s1 <> dest s2] (the property speaks of writers to different files), membership of the run class, and the
+    well-formedness of the attribute states of a history ([hstates_ok]: constants keep their value). *)
+Definition two_writer_property (x : xproto) : Prop :=
+  forall d0 s1 s2, dest s1 <> dest s2 -> forall sched, let st := run2t x s1 s2 sched (startt d0) in
+  (sdt st (File (dest s1)) = (if committedt (q1 st) then Some (new s1) else d0 (File (dest s1))) /\
+   sdt st (File (dest s2)) = (if committedt (q2 st) then Some (new s2) else d0 (File (dest s2)))) /\
+  (forall r l b, q1 st = TDone r l b ->
+     b = negb (committedt (q1 st)) /\ (b = true -> sdt st (File (dest s1)) = d0 (File (dest s1)))) /\
+  (forall r, raise_at s1 = Some r -> r <= length (body s1) -> committedt (q1 st) = false) /\
+  (finishedt (q1 st) = true -> (forall i, ~ In (false, (EUnlink i, RFault)) (trt st)) ->
+   assoct (q1 st) = None /\ forall i, assoct (q2 st) <> Some i -> sdt st (Tmp i) = d0 (Tmp i)) /\
+  ((forall i, assoct (q1 st) = Some i -> assoct (q2 st) = Some i -> False) /\
+   (forall i, assoct (q1 st) = Some i \/ assoct (q2 st) = Some i -> d0 (Tmp i) = None /\ sdt st (Tmp i) <> None) /\
+   (forall i, about_to_replace (q1 st) i -> sdt st (Tmp i) = Some (new s1)) /\
+   (forall i, about_to_replace (q2 st) i -> sdt st (Tmp i) = Some (new s2)) /\
+   (forall n, n <> File (dest s1) -> n <> File (dest s2) -> d0 n <> None -> sdt st n = d0 n)).
+Definition reentry_property (x : xproto) (t : xtree) : Prop :=
+  forall j fs d s faults,
+  let d' := fst (pro_run t j fs d) in
+  let r := snd (pro_run t j fs d) in
+  let st := alonet x s faults d' in
+  (exists b, r = Some b) /\
+  (forall n, n <> Tmp j -> d' n = d n) /\
+  (d' (Tmp j) = None \/ d' (Tmp j) = d (Tmp j)) /\
+  (r = Some false ->
+     good_use d' s st /\
+     sdt st (File (dest s)) = (if committedt (q1 st) then Some (new s) else d (File (dest s)))).
+
+Theorem generated_object_property n o p r :
+  all_classes n o (fun o' => retry_ok (obj_proto o') && proto_outcome_ok (obj_proto o') && reuse_indep o') = true ->
+  reentry_ok o p = true -> In r (run_classes n) ->
+  let o' := with_class r o in
+  let x := obj_proto o' in
+  two_writer_property x /\
+  (proto_ok x = true -> forall h, hstates_ok o' h -> forall d, hist_good o' h d) /\
+  (forall a, In a (holding o) -> reentry_property x (reentry_tree o p a)).
+Proof.
+  intros H Hp Hr o' x. unfold all_classes in H. rewrite forallb_forall in H. specialize (H r Hr).
+  fold o' in H. apply andb_prop in H as [H Hi]. apply andb_prop in H as [Hok Hout]. fold x in Hok, Hout.
+  split; [| split].
+  - unfold two_writer_property. intros d0 s1 s2 Hd sched. exact (whole_property x d0 s1 s2 Hd Hok Hout sched).
+  - intros Hpo h Hh d. exact (reuse_history_good o' Hi Hpo h Hh d).
+  - intros a Ha. unfold reentry_property. intros j fs d s faults.
+    exact (reentry_then_good_use x Hok Hout _ (reentry_ok_gives_up o p Hp a Ha) j fs d s faults).
+Qed.
+
+(** Today's class satisfies the hypotheses (8 named subclasses), with the prologue of rounds 1-4 and the repaired one. *)
+Lemma generated_object_hypotheses_hold :
+  all_classes 8 obj_fixed (fun o' => retry_ok (obj_proto o') && proto_outcome_ok (obj_proto o') && reuse_indep o') = true /\
+  reentry_ok obj_fixed prologue_r5 = true /\ reentry_ok obj_fixed prologue_r4 = true /\
+  all_classes 8 obj_fixed (fun o' => proto_ok (obj_proto o')) = true /\ holding obj_fixed <> [].
+Proof. vm_compute. repeat split; discriminate. Qed.
